@@ -25,7 +25,7 @@ func runC03(p *Program, r *Report) {
 	for _, m := range []struct {
 		r string
 		n int
-	}{{"C03.R1", 15}, {"C03.R2", 1}, {"C03.R4", 15}, {"C03.R5", 5}, {"C03.R6", 4}, {"C03.R7", 2}} {
+	}{{"C03.R1", 15}, {"C03.R2", 1}, {"C03.R4", 15}, {"C03.R5", 5}, {"C03.R6", 4}, {"C03.R7", 2}, {"C03.R8", 1}, {"C03.R9", 1}} {
 		r.Min(m.r, m.n)
 	}
 	pl, err := loadPolicy(p)
@@ -123,6 +123,8 @@ func runC03(p *Program, r *Report) {
 	// the identity of context-specific template copies: a copy analysed for one context must not serve another
 	checkMemoKey(p, r, "C03.R7")
 	checkMemoKeyConditional(p, r, "C03.R7")
+	checkConditionalNamesBodyKind(p, r, "C03.R8")
+	checkAttrNameContinuation(p, r, "C03.R9")
 }
 
 // checkIndirect: Indirect(a) returns a for non-pointers and nil, otherwise the
